@@ -46,6 +46,16 @@ func (ctx *Context) Errorf(format string, msgs ...interface{}) {
 	ctx.Error(fmt.Sprintf(format, msgs...))
 }
 
+// tableData returns the information the info pass gathered about the current
+// table. A table that no `.El' closed during the info pass has none (it is
+// reported as unclosed), and is rendered as an untitled table.
+func (ctx *Context) tableData() *TableData {
+	if ctx.Table.Count < len(ctx.Table.info) {
+		return ctx.Table.info[ctx.Table.Count]
+	}
+	return &TableData{}
+}
+
 // block returns current block.
 func (ctx *Context) block() ast.Block {
 	return ctx.loc.curBlocks[ctx.loc.curBlock]
